@@ -5,6 +5,11 @@ from . import common, ref_regex as rr, emit_grammar as eg, model, diag as dg, re
 from .grammar import Grammar, Rule, Term
 
 CLASS_KEY = 'class:lexer-union-needs-determinisation'
+NESTED_KEY = 'class:regex-nested-loop-stale-merge'
+
+def rxc_nested(ast):
+    from .regex_check import nested_loop
+    return nested_loop(ast)
 
 def term_ast(t):
     if t.kind == 'r': return rr.parse(t.text.encode('latin-1'))
@@ -67,7 +72,7 @@ FIXED_SETS = [
     ['<<=', '<<', '<=', '<'],
     [('a', 'a+'), ('b', '(ab)+')],
     [('x', '[a-c]+'), ('y', '[b-d]+')],
-    [('first', '[a-z]+'), ('second', '[a-z]+')],
+    [('first', '[a-z]+'), ('second', '[a-z][a-z]*')],
     ['+', '++', '+=', ('num', '[0-9]+(\\.[0-9]+)?')],
     [('str', '"[^"]*"'), ('ident', '[a-zA-Z_]+'), ',', '{', '}'],
     [('comment', '//[^\\x0a]*'), '/', '//', ('nl', '\\x0a')],
@@ -139,22 +144,33 @@ def _worker(spec):
     refs = [rr.TaggedRefDFA(a) for a in astss]
     inputs = [gen_inputs(rnd, ts, a, spec['n_inputs']) for ts, a in zip(sets, astss)]
     jobs = [('D', gi) for gi in range(len(gs))]
+    rc0, _, dumps, meta0, err0 = eg.run_jobs(exe, jobs, timeout=300)
+    skip = set()
     for gi in range(len(gs)):
+        d = dg.parse_diag(dumps.get(gi, {}).get('diag', ''))
+        if d.has_rr or d.has_sr or not d.states:
+            # two terms with the same id (e.g. the same pattern text twice) collapse into one symbol; parsing an R/R table is documented as undefined
+            skip.add(gi); C['termsets_skipped_conflicting_table'] += 1
+    jobs = []
+    for gi in range(len(gs)):
+        if gi in skip: continue
         for idx, d in enumerate(inputs[gi]):
             for m in modes: jobs.append((gi, idx, m, d))
-    rc, recs, dumps, meta, err = eg.run_jobs(exe, jobs, timeout=600)
+    rc, recs, _, meta, err = eg.run_jobs(exe, jobs, timeout=600)
     byk = {(r.gi, r.idx, r.mode): r for r in recs}
     if rc != 0 or not meta['end']:
         first = next((j for j in jobs if j[0] != 'D' and (j[0], j[1], j[2]) not in byk), None)
         out['viol'].append((['site:lexer@crash'], 'run aborted rc=%s timeout=%s at termset %s input %r: %s' % (rc, meta.get('timeout'), [t.text for t in sets[first[0]]] if first else None, first[3] if first else None, err[-300:]),
                             {'termset': [t.to_json() for t in sets[first[0]]] if first else None, 'input': first[3].hex() if first else None}))
     for gi, (g, ts) in enumerate(zip(gs, sets)):
+        if gi in skip: continue
         C['termsets'] += 1
         ref = refs[gi]
         det = ref.deterministic()
         C['termsets_union_deterministic' if det else 'termsets_union_needs_determinisation'] += 1
         tskey = 'input:' + common.sha('termset', json.dumps([t.to_json() for t in ts], sort_keys=True))[:16]
         keys = [tskey] + ([] if (det or is_corpus) else [CLASS_KEY])
+        if not is_corpus and any(rxc_nested(a) for a in astss[gi]): keys.append(NESTED_KEY)
         rep = {'termset': [t.to_json() for t in ts], 'union_deterministic': det}
         names = [t.display() for t in ts]
         # (1) the merged automaton, read through the hook, as a tagged language
